@@ -36,7 +36,7 @@ QSETS = {
     "obj3": "obj3",
 }
 RSTAR = {"I": "cube0", "z90": "cube5", "gen0": "gen0", "gen1": "gen1", "gen3": "gen3", "cube14": "cube14", "cube20": "cube20"}
-KINDS = ["single", "batch", "group", "multi", "stack", "notemplate", "group-multi"]
+KINDS = ["single", "batch", "group", "multi", "stack", "notemplate", "group-multi", "group-notemplate"]
 TOMO = (30, 30, 30)
 DECOY = [(1.0, (0.0, 0.0, 0.0), 1.6), (0.7, (2.0, 2.0, 0.0), 1.2)]
 
@@ -82,7 +82,7 @@ def cases(tier, seed):
                                     # thorough: the full product for the single-tomogram loader; the other six loader kinds share its
                                     # per-molecule code and are crossed with every orientation, rotation set and scale on one box
                                     continue
-                                if kind == "notemplate" and qs != "z30":
+                                if kind in ("notemplate", "group-notemplate") and qs != "z30":
                                     continue
                                 out.append({"box": list(box), "Rstar": rs, "qset": qs, "scale": scale, "order": order,
                                             "model": model, "kind": kind, "tier": tier})
@@ -120,7 +120,7 @@ def run_case(case):
     scale, order, mname, kind = case["scale"], case["order"], case["model"], case["kind"]
     Rstar = data.rot_matrix(RSTAR[case["Rstar"]])
     template = data.particle_box(box)  # particle centred in the box
-    notemplate = kind == "notemplate"
+    notemplate = kind in ("notemplate", "group-notemplate")
     quats = np.asarray(normalize_rotations(_qset_arg(case["qset"])), dtype=np.float64)
     if notemplate:
         quats = np.array([[0.0, 0.0, 0.0, 1.0]])
@@ -185,6 +185,8 @@ def run_case(case):
     elif kind == "stack":
         decoy = data.particle_box(box, blobs=DECOY)
         outs = [loader.align(np.stack([decoy, template]), max_shifts=ms_nm, alignment_model=cls, **kw).molecules]
+    elif kind == "group-notemplate":
+        outs = [l.molecules for _, l in loader.groupby("g").align_no_template(max_shifts=ms_nm, alignment_model=cls)]
     else:
         outs = [loader.align_no_template(max_shifts=ms_nm, alignment_model=cls).molecules]
 
@@ -236,8 +238,16 @@ def run_case(case):
                 if lab != want:
                     viol.append((sig("label", cl), f"molecule uid {u}: label {lab}, the particle is template {want}"))
     if notemplate and finals:
-        P = np.array([p for p, _ in finals])
-        spread = float(np.abs(P - np.median(P, axis=0)).max())
+        if kind == "group-notemplate":
+            # every group is aligned to its own average: consistency within each group
+            spread = 0.0
+            for gv in (0, 1):
+                Pg = np.array([p for p, u_ in finals if u_ % 2 == gv])
+                if len(Pg):
+                    spread = max(spread, float(np.abs(Pg - np.median(Pg, axis=0)).max()))
+        else:
+            P = np.array([p for p, _ in finals])
+            spread = float(np.abs(P - np.median(P, axis=0)).max())
         worst_pos = spread
         if spread > 0.5:
             viol.append((sig("mutual-consistency", "m!=0,q=I"), f"template-free alignment leaves the molecules {spread:.3f} px apart (same particle)"))
